@@ -21,7 +21,7 @@ Proof. split; vm_compute; reflexivity. Qed.
 Example ex_total_accept : exists c, parse 5 [B "prog"; B "TEST("; B "grp"; B "-r"; B "-3"; B "-xsn"] = Accept c.
 Proof. vm_compute. eexists. reflexivity. Qed.
 Example ex_filters_select : exists f, doc_says (DGroupDotName FExclude (B "grp") (B "name")) = Some f /\
-  map f probes = [false; false; false; true; true; true; true; false; false; true; true; false].
+  map f probes = [false; false; false; true; true; true; true; false; false; true; true; false; true; true].
 Proof. vm_compute. eexists. split; reflexivity. Qed.
 Example ex_filter_kinds : doc_filter_accepts (mkf (B "rp") false true) (B "grp") = false /\ doc_filter_accepts (mkf (B "rp") true true) (B "grp") = true.
 Proof. split; vm_compute; reflexivity. Qed.
